@@ -349,7 +349,7 @@ def parse_assumptions(text):
             cur = []
             blocks.append(cur)
         elif cur is not None:
-            m = re.match(r"^([A-Za-z_][\w.']*)\s*:", line)
+            m = re.match(r"^([A-Za-z_][\w.']*)\s*(:|$)", line)
             if m:
                 cur.append(m.group(1))
     return blocks
